@@ -560,7 +560,7 @@ def inline_lets(body, max_len=200):
 # helper inlining
 
 CALL = re.compile(r"(?<![\w.!])((?:self\s*\.\s*)|(?:(?:Self|crate|super|self|[a-z_][a-z0-9_]*)\s*::\s*)+)?([a-z_][a-z0-9_]*)\s*(?:::\s*<[^<>()]*>)?\s*\(")
-_SIMPLE_ARG = re.compile(r"^[&*]*\s*(?:mut\s+)?(?:[\w:]+|" + STR_LIT + r")(?:\s*\.\s*\w+(?:\s*\([^()|{}]*\))?|\s*\[[^\]|{}]*\]|\?)*$", re.S)
+_SIMPLE_ARG = re.compile(r"^[&*]*\s*(?:mut\s+)?(?:[\w:]+(?:\s*\([^()|{}]*\))?|" + STR_LIT + r")(?:\s*\.\s*\w+(?:\s*\([^()|{}]*\))?|\s*\[[^\]|{}]*\]|\?)*$", re.S)
 
 
 def substitute_params(body, params, args):
@@ -593,17 +593,60 @@ def substitute_params(body, params, args):
     return "".join(out)
 
 
+def _header_start(body, call_start, call_end):
+    """when the call at [call_start, call_end] sits in the header of an if / while / match / for (between the keyword and
+    the block it opens): the start of that statement, else -1"""
+    j, depth = call_start - 1, 0
+    while j >= 0:
+        c = body[j]
+        if c in ")]": depth += 1
+        elif c in "([":
+            depth -= 1
+            if depth < 0:
+                return -1                                  # inside the argument list of something else
+        elif c == '"':
+            j -= 1
+            while j > 0 and not (body[j] == '"' and body[j - 1] != "\\"):
+                j -= 1
+        elif c in ";{}" and depth == 0:
+            break
+        j -= 1
+    start = j + 1
+    kw = re.search(r"\b(if|while|match|for)\b", body[start:call_start])
+    if not kw or re.match(r"\s*else\b", body[start:call_start]):
+        return -1
+    k, depth, n = call_end + 1, 0, len(body)
+    while k < n:
+        q = skip_literal(body, k)
+        if q != k:
+            k = q; continue
+        c = body[k]
+        if c in "([": depth += 1
+        elif c in ")]":
+            depth -= 1
+            if depth < 0: return -1
+        elif depth == 0 and c == "{":
+            return start
+        elif depth == 0 and c in ";},":
+            return -1
+        k += 1
+    return -1
+
+
 def inline_helpers(body, lookup, boundary, stack=(), depth=3):
-    """insert `{ callee body }` after every call of a function that `lookup(name, via_self)` resolves to exactly one
-    definition and whose name is not in `boundary` (the functions the extractors know by name) nor in `stack`."""
+    """insert `{ callee body }` after every call of a function that `lookup(name, prefix)` resolves to exactly one
+    definition and whose name is not in `boundary` (the functions the extractors know by name) nor in `stack`.
+    A call in the header of an if / while / match / for gets the callee body in front of that statement instead
+    (`{ body } if helper(x)? { … }`), so that the block structure of the statement stays readable."""
     if depth <= 0:
         return body
-    out, pos = [], 0
+    ins = []                                   # (position, text) insertions
+    pos = 0
     for m in CALL.finditer(body):
         if m.start() < pos:
             continue
         name = m.group(2)
-        if name in boundary or name in stack or re.match(r"fn\s*$", body[max(0, m.start() - 4):m.start()]):
+        if name in boundary or name in stack or re.search(r"\bfn\s*$", body[max(0, m.start() - 4):m.start()]):
             continue
         prefix = (m.group(1) or "").replace(" ", "")
         if prefix and re.search(r"(^|::)[A-Z]\w*::$", prefix) and not prefix.startswith("Self::"):
@@ -619,9 +662,15 @@ def inline_helpers(body, lookup, boundary, stack=(), depth=3):
         if len(args) == len(callee["params"]):
             cbody = substitute_params(cbody, callee["params"], args)
         cbody = inline_helpers(cbody, lookup, boundary, stack + (name,), depth - 1)
-        out.append(body[pos:cl + 1] + cbody)
-        pos = cl + 1
-    out.append(body[pos:])
+        hs = _header_start(body, m.start(), cl)
+        ins.append((hs, " " + cbody + " ") if hs >= 0 else (cl + 1, cbody))
+        pos = m.end()
+    if not ins:
+        return body
+    out, last = [], 0
+    for p_, t in sorted(ins, key=lambda x: x[0]):
+        out.append(body[last:p_]); out.append(t); last = p_
+    out.append(body[last:])
     return "".join(out)
 
 
